@@ -482,7 +482,10 @@ def _fidelity_body(tmpl, ti, ca, cb):
       if k not in got:
         return Violation(f'fidelity:intermediate_missing:t{ti}', f'{code!r}: {k}')
       continue
-    if k not in got or not (got[k] == v):
+    same = k in got and (got[k] == v)
+    if not same and k in got and hasattr(v, '__dict__') and type(got[k]).__name__ == type(v).__name__:
+      same = vars(got[k]) == vars(v)          # instances of classes defined by the program itself
+    if not same:
       return Violation(f'fidelity:intermediate_differs:t{ti}', f'{code!r}: {k}={got.get(k)!r} vs {v!r}')
   return None
 
